@@ -7,7 +7,11 @@
    location in a store of mutable sets.  The caller owns the first cells of the
    store; StreamTagger allocates a new cell for the set it builds.  Sinks log the
    reference they receive; what a logged reference denotes is read off the store
-   at the END of the run, so that any later mutation of a shared object shows. *)
+   at the END of the run, so that any later mutation of a shared object shows
+   (a caller-owned cell right after the call: Corr/C11.v).
+   No decorator keeps state between calls: a history is ANY list of ops - several
+   runs, repeated or unmatched startTestRun / stopTestRun, status outside a run,
+   the caller re-using and changing its own set objects (OMutate) in between. *)
 From TT Require Import Lib.Base Model.Router Gen.Failfast.
 
 Definition tag := nat.
